@@ -284,6 +284,16 @@ class Program:
         self.globals = {}        # name -> [global dict]
         self.units = []
         self.n_functions = 0
+        # root of the analysed tree (a mutated scratch copy has its own): taken from the compile database next to the facts
+        self.root = REPO
+        try:
+            cc = json.load(open(os.path.join(facts_dir, "cdb", "compile_commands.json")))
+            for e in cc:
+                if "/src/" in e["file"] and "rscore.dir" in e.get("output", ""):
+                    self.root = e["file"][:e["file"].index("/src/")]
+                    break
+        except (OSError, ValueError):
+            pass
         d = os.path.join(facts_dir, config)
         seen = set()
         for fn in sorted(os.listdir(d)):
